@@ -11,3 +11,11 @@ func VerifWaitBackground(f Family) {
 func VerifDeleteObsolete(f Family) {
 	f.deleteObsoleteFiles()
 }
+
+// VerifActiveFiles returns the file numbers of all active versions of the family.
+func VerifActiveFiles(f Family) (out []int64) {
+	for _, fm := range f.(*family).familyVersion.GetAllActiveFiles() {
+		out = append(out, fm.GetFileNumber().Int64())
+	}
+	return out
+}
